@@ -352,3 +352,448 @@ Proof.
   intros I E Epc Nx. apply named_spec in Nx as [Er En]. simpl. rewrite E, Epc, En, Er. simpl.
   rewrite lookup_remove, N.eqb_refl. reflexivity.
 Qed.
+
+(* ------------------------------------------------------------------ the oracle accepts every model history *)
+Lemma mem_pair_cons n a m b l :
+  mem_pair n a ((m, b) :: l) = (N.eqb m n && Nat.eqb b a) || mem_pair n a l.
+Proof. reflexivity. Qed.
+
+Lemma mem_pair_del n a m b l :
+  mem_pair n a (del_pair m b l) = mem_pair n a l && negb (N.eqb n m && Nat.eqb a b).
+Proof.
+  unfold mem_pair, del_pair. induction l as [|[k c] t IH]; simpl; auto.
+  destruct (N.eqb k m && Nat.eqb c b) eqn:E; simpl.
+  - rewrite IH. apply andb_true_iff in E as [E1 E2].
+    apply N.eqb_eq in E1. apply Nat.eqb_eq in E2. subst k c.
+    destruct (N.eqb m n) eqn:F1; simpl; auto.
+    destruct (Nat.eqb b a) eqn:F2; simpl; auto.
+    apply N.eqb_eq in F1. apply Nat.eqb_eq in F2. subst. rewrite N.eqb_refl, Nat.eqb_refl. simpl.
+    rewrite andb_false_r. reflexivity.
+  - rewrite IH. destruct (N.eqb k n && Nat.eqb c a) eqn:F; simpl; auto.
+    apply andb_true_iff in F as [F1 F2]. apply N.eqb_eq in F1. apply Nat.eqb_eq in F2. subst k c.
+    rewrite E. reflexivity.
+Qed.
+
+Lemma has_name_ex n l : has_name n l = true <-> exists a, mem_pair n a l = true.
+Proof.
+  unfold has_name, mem_pair. split.
+  - intros H. apply existsb_exists in H as ([m a] & Hin & E). exists a.
+    apply existsb_exists. exists (m, a). simpl in *. rewrite E, Nat.eqb_refl. auto.
+  - intros (a & H). apply existsb_exists in H as (e & Hin & E). apply andb_true_iff in E as [E _].
+    apply existsb_exists. eauto.
+Qed.
+
+Lemma mem_nat_del a b l : mem_nat a (del_nat b l) = mem_nat a l && negb (Nat.eqb a b).
+Proof.
+  unfold mem_nat, del_nat. induction l as [|c t IH]; simpl; auto.
+  destruct (Nat.eqb c b) eqn:E; simpl.
+  - rewrite IH. apply Nat.eqb_eq in E. subst c. destruct (Nat.eqb a b); simpl; auto.
+    rewrite andb_false_r. reflexivity.
+  - rewrite IH. destruct (Nat.eqb a c) eqn:F; simpl; auto.
+    apply Nat.eqb_eq in F. subst c. rewrite E. reflexivity.
+Qed.
+
+Definition stoppingpc (p : pc) : bool := match p with PStop1 | PStop2 => true | _ => false end.
+Definition pidlivepc (p : pc) : bool := match p with PRegd | PRun => true | _ => false end.
+Definition spawnedpc (p : pc) : bool := match p with PNew | PFailed => false | _ => true end.
+
+Record Rel (s : st) (o : ost) : Prop := mkRel {
+  rL : forall n a, mem_pair n a (o_live o) = true <->
+       exists x, nth_error (actors s) a = Some x /\ named x n = true /\ live (a_pc x) = true;
+  rS : forall n a x, nth_error (actors s) a = Some x -> named x n = true ->
+       stoppingpc (a_pc x) = true -> mem_pair n a (o_stopping o) = true;
+  rW : forall a, mem_nat a (o_waited o) = true ->
+       exists x, nth_error (actors s) a = Some x /\ a_pc x = PWaited;
+  rP : forall a, mem_nat a (o_pidlive o) = true ->
+       exists x, nth_error (actors s) a = Some x /\ a_remote x = false /\ pidlivepc (a_pc x) = true;
+  rI : forall a x, nth_error (actors s) a = Some x -> spawnedpc (a_pc x) = true ->
+       info_of a (o_info o) = Some (a_name x, a_remote x)
+}.
+
+Fixpoint osteps (o : ost) (h : list ev) : option ost :=
+  match h with
+  | [] => Some o
+  | e :: t => match ostep o e with Some o' => osteps o' t | None => None end
+  end.
+
+Lemma check_from_app o h1 h2 :
+  check_from o (h1 ++ h2) = match osteps o h1 with Some o' => check_from o' h2 | None => false end.
+Proof.
+  revert o; induction h1 as [|e t IH]; intros o; simpl; auto.
+  destruct (ostep o e); auto.
+Qed.
+
+(* pc change of actor i; classes relevant to Rel given as hypotheses *)
+Lemma Rel_pc s o i x p' :
+  Rel s o -> nth_error (actors s) i = Some x ->
+  (live p' = live (a_pc x) \/ forall n, named x n = false) ->
+  (stoppingpc p' = true -> stoppingpc (a_pc x) = true \/ forall n, named x n = false) ->
+  (a_pc x = PWaited -> p' = PWaited) ->
+  (pidlivepc (a_pc x) = true -> pidlivepc p' = true \/ mem_nat i (o_pidlive o) = false) ->
+  (spawnedpc p' = true -> spawnedpc (a_pc x) = true \/ info_of i (o_info o) = Some (a_name x, a_remote x)) ->
+  Rel (set_pc s i x p') o.
+Proof.
+  intros [L S W P I] E HL HS HW HP HI.
+  assert (NM : forall n, named (mkA (a_name x) (a_remote x) p') n = named x n) by reflexivity.
+  constructor; unfold set_pc; simpl.
+  - intros n a. rewrite L. destruct (Nat.eq_dec i a) as [->|Hne].
+    + rewrite (nth_error_upd_eq _ _ _ _ E). split.
+      * intros (y & Ey & Ny & Ly). rewrite E in Ey. injection Ey as <-.
+        eexists; split; [reflexivity|]. rewrite NM. split; auto. simpl.
+        destruct HL as [->|HL]; auto. rewrite HL in Ny. discriminate.
+      * intros (y & Ey & Ny & Ly). injection Ey as <-. rewrite NM in Ny. simpl in Ly.
+        exists x. split; auto. split; auto. destruct HL as [<-|HL]; auto. rewrite HL in Ny. discriminate.
+    + rewrite nth_error_upd_neq by auto. tauto.
+  - intros n a y Ey Ny Sy. destruct (Nat.eq_dec i a) as [->|Hne].
+    + rewrite (nth_error_upd_eq _ _ _ _ E) in Ey. injection Ey as <-. rewrite NM in Ny. simpl in Sy.
+      destruct (HS Sy) as [H|H]; [|rewrite H in Ny; discriminate]. eapply S; eauto.
+    + rewrite nth_error_upd_neq in Ey by auto. eauto.
+  - intros a Ha. destruct (W _ Ha) as (y & Ey & Py). destruct (Nat.eq_dec i a) as [->|Hne].
+    + rewrite (nth_error_upd_eq _ _ _ _ E). rewrite E in Ey. injection Ey as <-.
+      eexists; split; [reflexivity|]. simpl. auto.
+    + rewrite nth_error_upd_neq by auto. eauto.
+  - intros a Ha. destruct (P _ Ha) as (y & Ey & Ry & Py). destruct (Nat.eq_dec i a) as [->|Hne].
+    + rewrite (nth_error_upd_eq _ _ _ _ E). rewrite E in Ey. injection Ey as <-.
+      eexists; split; [reflexivity|]. simpl. split; auto.
+      destruct (HP Py) as [H|H]; auto. congruence.
+    + rewrite nth_error_upd_neq by auto. eauto.
+  - intros a y Ey Sy. destruct (Nat.eq_dec i a) as [->|Hne].
+    + rewrite (nth_error_upd_eq _ _ _ _ E) in Ey. injection Ey as <-. simpl in *.
+      destruct (HI Sy) as [H|H]; auto; apply (I _ x); auto.
+    + rewrite nth_error_upd_neq in Ey by auto. eauto.
+Qed.
+
+Lemma Rel_oinfo s o i x v :
+  Rel s o -> nth_error (actors s) i = Some x -> a_pc x = PNew ->
+  Rel s (mkO (o_live o) (o_stopping o) (o_waited o) (o_pidlive o) ((i, v) :: o_info o)).
+Proof.
+  intros [L S W P I] E Epc. constructor; simpl; auto.
+  intros a y Ey Sy. destruct (Nat.eqb i a) eqn:Ei.
+  - apply Nat.eqb_eq in Ei. subst a. rewrite E in Ey. injection Ey as <-. rewrite Epc in Sy. discriminate.
+  - eauto.
+Qed.
+
+(* the tables of the state do not matter for Rel *)
+Lemma Rel_tables s o nm pd : Rel s o -> Rel (mkSt nm pd (actors s)) o.
+Proof. intros [L S W P I]. constructor; simpl; auto. Qed.
+
+(* the oracle state gains a pid / info entry *)
+Lemma info_of_cons a b v l : info_of a ((b, v) :: l) = if Nat.eqb b a then Some v else info_of a l.
+Proof. reflexivity. Qed.
+
+Ltac nonamed H :=
+  unfold named in H; simpl in H;
+  repeat match goal with
+         | E : a_remote _ = _ |- _ => rewrite E in H
+         | E : a_name _ = _ |- _ => rewrite E in H
+         end;
+  simpl in H; rewrite ?andb_false_r in H; discriminate.
+
+Lemma begin_ok s o i x :
+  Inv s -> Rel s o -> nth_error (actors s) i = Some x -> pidlivepc (a_pc x) = true ->
+  exists o', ostep o (EBegin i) = Some o' /\ Rel (set_pc s i x PStop1) o'.
+Proof.
+  intros I R E Hp.
+  assert (Sp : spawnedpc (a_pc x) = true) by (destruct (a_pc x); try discriminate; reflexivity).
+  assert (Lx : live (a_pc x) = true) by (destruct (a_pc x); try discriminate; reflexivity).
+  pose proof (rI _ _ R _ _ E Sp) as Info. simpl. rewrite Info.
+  assert (NM : forall n, named (mkA (a_name x) (a_remote x) PStop1) n = named x n) by reflexivity.
+  (* generic part: pidlive loses i *)
+  assert (PID : forall a, mem_nat a (del_nat i (o_pidlive o)) = true ->
+           exists y, nth_error (actors (set_pc s i x PStop1)) a = Some y /\
+                     a_remote y = false /\ pidlivepc (a_pc y) = true).
+  { unfold set_pc; simpl. intros a Ha. rewrite mem_nat_del in Ha. apply andb_true_iff in Ha as [Ha Hne].
+    destruct (rP _ _ R _ Ha) as (y & Ey & Ry & Py).
+    assert (a <> i) by (intros ->; rewrite Nat.eqb_refl in Hne; discriminate).
+    rewrite nth_error_upd_neq by auto. eauto. }
+  assert (WT : forall a, mem_nat a (o_waited o) = true ->
+           exists y, nth_error (actors (set_pc s i x PStop1)) a = Some y /\ a_pc y = PWaited).
+  { unfold set_pc; simpl. intros a Ha. destruct (rW _ _ R _ Ha) as (y & Ey & Py). destruct (Nat.eq_dec i a) as [->|Hne].
+    - rewrite E in Ey. injection Ey as <-. rewrite Py in Hp. discriminate.
+    - rewrite nth_error_upd_neq by auto. eauto. }
+  assert (INF : forall a y, nth_error (actors (set_pc s i x PStop1)) a = Some y ->
+           spawnedpc (a_pc y) = true -> info_of a (o_info o) = Some (a_name y, a_remote y)).
+  { unfold set_pc; simpl. intros a y Ey Sy. destruct (Nat.eq_dec i a) as [->|Hne].
+    - rewrite (nth_error_upd_eq _ _ _ _ E) in Ey. injection Ey as <-. simpl. auto.
+    - rewrite nth_error_upd_neq in Ey by auto. eapply (rI _ _ R); eauto. }
+  destruct (a_name x) as [n0|] eqn:En; [destruct (a_remote x) eqn:Er|].
+  - (* remote named *)
+    eexists; split; [reflexivity|]. constructor; [| |exact WT|exact PID|exact INF]; unfold set_pc; simpl.
+    + intros n a. rewrite (rL _ _ R). destruct (Nat.eq_dec i a) as [->|Hne].
+      * rewrite (nth_error_upd_eq _ _ _ _ E). split.
+        -- intros (y & Ey & Ny & _). rewrite E in Ey. injection Ey as <-.
+           nonamed Ny.
+        -- intros (y & Ey & Ny & _). injection Ey as <-. nonamed Ny.
+      * rewrite nth_error_upd_neq by auto. tauto.
+    + intros n a y Ey Ny Sy. destruct (Nat.eq_dec i a) as [->|Hne].
+      * rewrite (nth_error_upd_eq _ _ _ _ E) in Ey. injection Ey as <-. nonamed Ny.
+      * rewrite nth_error_upd_neq in Ey by auto. eapply (rS _ _ R); eauto.
+  - (* local named: the holder moves from live to stopping *)
+    assert (Nx : named x n0 = true) by (apply named_spec; auto).
+    assert (ML : mem_pair n0 i (o_live o) = true) by (apply (rL _ _ R); eauto).
+    rewrite ML. eexists; split; [reflexivity|]. constructor; [| |exact WT|exact PID|exact INF]; unfold set_pc; simpl.
+    + intros n a. rewrite mem_pair_del, andb_true_iff, (rL _ _ R).
+      destruct (Nat.eq_dec i a) as [->|Hne].
+      * rewrite (nth_error_upd_eq _ _ _ _ E). split.
+        -- intros [(y & Ey & Ny & _) Hd]. rewrite E in Ey. injection Ey as <-.
+           assert (n = n0) as -> by (eapply named_inj; eauto).
+           rewrite N.eqb_refl, Nat.eqb_refl in Hd. discriminate.
+        -- intros (y & Ey & _ & Ly). injection Ey as <-. discriminate.
+      * rewrite nth_error_upd_neq by auto. split; [tauto|]. intros H. split; auto.
+        assert (Nat.eqb a i = false) as -> by (apply Nat.eqb_neq; auto). rewrite andb_false_r. reflexivity.
+    + intros n a y Ey Ny Sy. destruct (Nat.eq_dec i a) as [->|Hne].
+      * rewrite (nth_error_upd_eq _ _ _ _ E) in Ey. injection Ey as <-. change (named x n = true) in Ny.
+        assert (n = n0) as -> by (eapply named_inj; eauto).
+        rewrite N.eqb_refl, Nat.eqb_refl. reflexivity.
+      * rewrite nth_error_upd_neq in Ey by auto. rewrite (rS _ _ R _ _ _ Ey Ny Sy). apply orb_true_r.
+  - (* anonymous *)
+    eexists; split; [reflexivity|]. constructor; [| |exact WT|exact PID|exact INF]; unfold set_pc; simpl.
+    + intros n a. rewrite (rL _ _ R). destruct (Nat.eq_dec i a) as [->|Hne].
+      * rewrite (nth_error_upd_eq _ _ _ _ E). split.
+        -- intros (y & Ey & Ny & _). rewrite E in Ey. injection Ey as <-.
+           nonamed Ny.
+        -- intros (y & Ey & Ny & _). injection Ey as <-. nonamed Ny.
+      * rewrite nth_error_upd_neq by auto. tauto.
+    + intros n a y Ey Ny Sy. destruct (Nat.eq_dec i a) as [->|Hne].
+      * rewrite (nth_error_upd_eq _ _ _ _ E) in Ey. injection Ey as <-. nonamed Ny.
+      * rewrite nth_error_upd_neq in Ey by auto. eapply (rS _ _ R); eauto.
+Qed.
+
+Lemma pc_of_set s i x p : nth_error (actors s) i = Some x -> pc_of (set_pc s i x p) i = Some p.
+Proof. intros E. unfold pc_of, set_pc; simpl. rewrite (nth_error_upd_eq _ _ _ _ E). reflexivity. Qed.
+
+Lemma pc_of_set_tables nm pd s i x p :
+  nth_error (actors s) i = Some x -> pc_of (set_pc (mkSt nm pd (actors s)) i x p) i = Some p.
+Proof. intros E. unfold pc_of, set_pc; simpl. rewrite (nth_error_upd_eq _ _ _ _ E). reflexivity. Qed.
+
+Lemma Rel_set_tables s o nm pd i x p :
+  Rel (set_pc s i x p) o -> Rel (set_pc (mkSt nm pd (actors s)) i x p) o.
+Proof. intros [L S W P I]. constructor; unfold set_pc in *; simpl in *; auto. Qed.
+
+
+
+
+Lemma Rel_spawn_named s o i x n0 :
+  Rel s o -> nth_error (actors s) i = Some x -> a_pc x = PNew -> named x n0 = true ->
+  Rel (set_pc s i x PNameOk)
+      (mkO ((n0, i) :: o_live o) (o_stopping o) (o_waited o) (o_pidlive o)
+           ((i, (a_name x, a_remote x)) :: o_info o)).
+Proof.
+  intros [L S W P I] E Epc Nx.
+  assert (NM : forall n, named (mkA (a_name x) (a_remote x) PNameOk) n = named x n) by reflexivity.
+  constructor; unfold set_pc; simpl.
+  - intros n a. destruct (Nat.eq_dec i a) as [->|Hne].
+    + rewrite Nat.eqb_refl, andb_true_r, (nth_error_upd_eq _ _ _ _ E). split.
+      * intros H. eexists; split; [reflexivity|]. rewrite NM. simpl. split; auto.
+        apply orb_true_iff in H as [H|H].
+        -- apply N.eqb_eq in H. subst; auto.
+        -- apply L in H as (y & Ey & _ & Ly). rewrite E in Ey. injection Ey as <-. rewrite Epc in Ly. discriminate.
+      * intros (y & Ey & Ny & _). injection Ey as <-. rewrite NM in Ny.
+        assert (n = n0) as -> by (eapply named_inj; eauto). rewrite N.eqb_refl. reflexivity.
+    + assert (Nat.eqb i a = false) as -> by (apply Nat.eqb_neq; auto).
+      rewrite andb_false_r. simpl. rewrite L, nth_error_upd_neq by auto. tauto.
+  - intros n a y Ey Ny Sy. destruct (Nat.eq_dec i a) as [->|Hne].
+    + rewrite (nth_error_upd_eq _ _ _ _ E) in Ey. injection Ey as <-. discriminate.
+    + rewrite nth_error_upd_neq in Ey by auto. eauto.
+  - intros a Ha. destruct (W _ Ha) as (y & Ey & Py). destruct (Nat.eq_dec i a) as [->|Hne].
+    + rewrite E in Ey. injection Ey as <-. congruence.
+    + rewrite nth_error_upd_neq by auto. eauto.
+  - intros a Ha. destruct (P _ Ha) as (y & Ey & Ry & Py). destruct (Nat.eq_dec i a) as [->|Hne].
+    + rewrite E in Ey. injection Ey as <-. rewrite Epc in Py. discriminate.
+    + rewrite nth_error_upd_neq by auto. eauto.
+  - intros a y Ey Sy. destruct (Nat.eq_dec i a) as [->|Hne].
+    + rewrite (nth_error_upd_eq _ _ _ _ E) in Ey. injection Ey as <-. rewrite Nat.eqb_refl. reflexivity.
+    + assert (Nat.eqb i a = false) as -> by (apply Nat.eqb_neq; auto).
+      rewrite nth_error_upd_neq in Ey by auto. eauto.
+Qed.
+
+Lemma sim_step s o l :
+  Inv s -> Rel s o ->
+  exists o', osteps o (emit s (step false s l) l) = Some o' /\ Rel (step false s l) o'.
+Proof.
+  intros I R. destruct l as [i|i ok|i|i|i|n|a].
+  - (* LStep *)
+    simpl. destruct (nth_error (actors s) i) as [x|] eqn:E; [|exists o; auto].
+    destruct (a_pc x) eqn:Epc; try (exists o; split; [reflexivity|exact R]).
+    + (* PNew *)
+      assert (ANON : (forall n, named x n = false) ->
+                exists o', osteps o [ESpawn i (a_name x) (a_remote x) true] = Some o' /\ Rel (set_pc s i x PNameOk) o').
+      { intros Hn. simpl.
+        assert (ostep o (ESpawn i (a_name x) (a_remote x) true) =
+                Some (mkO (o_live o) (o_stopping o) (o_waited o) (o_pidlive o) ((i, (a_name x, a_remote x)) :: o_info o))) as Eo.
+        { simpl. destruct (a_name x) as [n0|] eqn:En; auto. destruct (a_remote x) eqn:Er; auto.
+          specialize (Hn n0). unfold named in Hn. rewrite Er, En, N.eqb_refl in Hn. discriminate. }
+        simpl in Eo. rewrite Eo. eexists; split; [reflexivity|].
+        apply Rel_pc; auto.
+        - apply Rel_oinfo with (x := x); auto.
+        - rewrite Epc; discriminate.
+        - rewrite Epc; discriminate.
+        - intros _. right. simpl. rewrite Nat.eqb_refl. reflexivity. }
+      destruct (a_remote x) eqn:Er; [|destruct (a_name x) as [n0|] eqn:En].
+      * rewrite (pc_of_set _ _ _ _ E). apply ANON. intros n. unfold named. rewrite Er. reflexivity.
+      * destruct (lookup n0 (names s)) as [j|] eqn:EL.
+        -- (* AlreadyRegistered *)
+           rewrite (pc_of_set _ _ _ _ E). simpl.
+           destruct (iA _ I _ _ EL) as (y & Ey & Ny & Hy).
+           assert (HN : has_name n0 (o_live o) || has_name n0 (o_stopping o) = true).
+           { destruct (live (a_pc y)) eqn:Ly.
+             - assert (mem_pair n0 j (o_live o) = true) by (apply (rL _ _ R); eauto).
+               apply orb_true_iff; left. apply has_name_ex; eauto.
+             - assert (mem_pair n0 j (o_stopping o) = true).
+               { eapply (rS _ _ R); eauto. destruct (a_pc y); try discriminate; reflexivity. }
+               apply orb_true_iff; right. apply has_name_ex; eauto. }
+           rewrite HN. eexists; split; [reflexivity|].
+           apply Rel_pc; auto; rewrite Epc; try discriminate; auto.
+        -- (* the name is taken by i *)
+           unfold pc_of, set_pc. simpl. rewrite (nth_error_upd_eq _ _ _ _ E). simpl.
+           assert (Nx : named x n0 = true) by (apply named_spec; auto).
+           assert (HN : has_name n0 (o_live o) = false).
+           { destruct (has_name n0 (o_live o)) eqn:H; auto. apply has_name_ex in H as (a & Ha).
+             apply (rL _ _ R) in Ha as (y & Ey & Ny & Ly).
+             assert (lookup n0 (names s) = Some a).
+             { apply (iB _ I _ y n0); auto. destruct (a_pc y); try discriminate; reflexivity. }
+             congruence. }
+           rewrite HN. eexists; split; [reflexivity|].
+           pose proof (Rel_spawn_named s o i x n0 R E Epc Nx) as R'.
+           rewrite En, Er in R'.
+           destruct R' as [L S W P If]. constructor; unfold set_pc in *; simpl in *; auto.
+      * rewrite (pc_of_set _ _ _ _ E). apply ANON. intros n. unfold named. rewrite En, andb_false_r. reflexivity.
+    + (* PNameOk *)
+      destruct (a_remote x) eqn:Er.
+      * rewrite (pc_of_set _ _ _ _ E). simpl. exists o. split; auto.
+        apply Rel_pc; auto; rewrite Epc; try discriminate; auto.
+      * unfold pc_of, set_pc. simpl. rewrite (nth_error_upd_eq _ _ _ _ E). simpl.
+        eexists; split; [reflexivity|].
+        assert (R1 : Rel (set_pc s i x PRegd) o).
+        { apply Rel_pc; auto; rewrite Epc; try discriminate; auto. }
+        destruct R1 as [L S W P If]. constructor; unfold set_pc in *; simpl in *; auto.
+        intros a Ha. apply orb_true_iff in Ha as [Ha|Ha]; auto.
+        apply Nat.eqb_eq in Ha. subst a. rewrite (nth_error_upd_eq _ _ _ _ E).
+        eexists; split; [reflexivity|]. simpl. auto.
+    + (* PStop1 *)
+      exists o. split; auto. apply Rel_set_tables.
+      apply Rel_pc; auto; rewrite Epc; try discriminate; auto.
+    + (* PStop2 *)
+      assert (R1 : Rel (set_pc s i x PStopping) o).
+      { apply Rel_pc; auto; rewrite Epc; try discriminate; auto. }
+      exists o. split; auto.
+      destruct (a_name x) as [n0|]; auto.
+      destruct (negb (a_remote x) || false); auto. apply Rel_set_tables; auto.
+  - (* LStart *)
+    destruct ok.
+    + simpl. exists o. split; auto.
+      destruct (nth_error (actors s) i) as [x|] eqn:E; auto.
+      destruct (a_pc x) eqn:Epc; auto.
+      apply Rel_pc; auto; rewrite Epc; try discriminate; auto.
+    + simpl. unfold pc_of. destruct (nth_error (actors s) i) as [x|] eqn:E; [|exists o; auto].
+      destruct (a_pc x) eqn:Epc; try (exists o; split; [reflexivity|exact R]).
+      destruct (begin_ok s o i x I R E) as (o' & Eo & R'); [rewrite Epc; reflexivity|].
+      exists o'. simpl. simpl in Eo. rewrite Eo. auto.
+  - (* LStop *)
+    simpl. unfold pc_of. destruct (nth_error (actors s) i) as [x|] eqn:E; [|exists o; auto].
+    destruct (a_pc x) eqn:Epc; try (exists o; split; [reflexivity|exact R]).
+    destruct (begin_ok s o i x I R E) as (o' & Eo & R'); [rewrite Epc; reflexivity|].
+    exists o'. simpl. simpl in Eo. rewrite Eo. auto.
+  - (* LFinish *)
+    simpl. destruct (nth_error (actors s) i) as [x|] eqn:E; [|exists o; auto].
+    destruct (a_pc x) eqn:Epc; try (exists o; split; [reflexivity|exact R]).
+    exists o. split; auto. apply Rel_pc; auto; rewrite Epc; try discriminate; auto.
+  - (* LWaitRet *)
+    simpl. unfold pc_of.
+    destruct (nth_error (actors s) i) as [x|] eqn:E; [|rewrite E; exists o; auto].
+    assert (WAIT : a_pc x = PStopped \/ a_pc x = PWaited ->
+              exists o', osteps o [EWait i] = Some o' /\ Rel (set_pc s i x PWaited) o').
+    { intros Hpc.
+      assert (Sp : spawnedpc (a_pc x) = true) by (destruct Hpc as [-> | ->]; reflexivity).
+      pose proof (rI _ _ R _ _ E Sp) as Info.
+      assert (R1 : Rel (set_pc s i x PWaited) o).
+      { apply Rel_pc; auto; try discriminate;
+          try (left; destruct Hpc as [-> | ->]; reflexivity);
+          try (intros Hp; left; destruct Hpc as [H | H]; rewrite H in Hp; discriminate);
+          try (intros _; left; destruct Hpc as [-> | ->]; reflexivity). }
+      simpl. rewrite Info.
+      assert (Pi : pc_of (set_pc s i x PWaited) i = Some PWaited) by (apply pc_of_set; auto).
+      assert (GEN : forall st', (forall n a, mem_pair n a st' = true -> mem_pair n a (o_stopping o) = true) ->
+                (forall n a, mem_pair n a (o_stopping o) = true -> a <> i -> mem_pair n a st' = true) ->
+                Rel (set_pc s i x PWaited) (mkO (o_live o) st' (i :: o_waited o) (o_pidlive o) (o_info o))).
+      { intros st' H1 H2. destruct R1 as [L S W P If]. constructor; simpl; auto.
+        - intros n a y Ey Ny Sy. apply H2; [eapply S; eauto|].
+          intros ->. unfold set_pc in Ey; simpl in Ey. rewrite (nth_error_upd_eq _ _ _ _ E) in Ey.
+          injection Ey as <-. discriminate.
+        - intros a Ha. apply orb_true_iff in Ha as [Ha|Ha]; auto.
+          apply Nat.eqb_eq in Ha. subst a. unfold set_pc; simpl. rewrite (nth_error_upd_eq _ _ _ _ E).
+          eexists; split; reflexivity. }
+      destruct (a_name x) as [n0|]; [destruct (a_remote x)|]; eexists; (split; [reflexivity|]).
+      - apply GEN; auto.
+      - apply GEN.
+        + intros n a. rewrite mem_pair_del. intros H. apply andb_true_iff in H. tauto.
+        + intros n a H Hne. rewrite mem_pair_del, H. simpl.
+          assert (Nat.eqb a i = false) as -> by (apply Nat.eqb_neq; auto). rewrite andb_false_r. reflexivity.
+      - apply GEN; auto. }
+    destruct (a_pc x) eqn:Epc; try (rewrite E, Epc; exists o; split; [reflexivity|exact R]).
+    + unfold set_pc at 1; simpl. rewrite (nth_error_upd_eq _ _ _ _ E). simpl. apply WAIT; auto.
+    + unfold set_pc at 1; simpl. rewrite (nth_error_upd_eq _ _ _ _ E). simpl. apply WAIT; auto.
+  - (* LWhere *)
+    simpl. destruct (lookup n (names s)) as [a|] eqn:EL.
+    + destruct (iA _ I _ _ EL) as (x & Ex & Nx & Hx). unfold pc_of. rewrite Ex.
+      assert (C : (mem_pair n a (o_live o) || mem_pair n a (o_stopping o)) && negb (mem_nat a (o_waited o))
+                  && negb (match cls (a_pc x) with SStopped => true | _ => false end) = true).
+      { apply andb_true_iff; split; [apply andb_true_iff; split|].
+        - destruct (live (a_pc x)) eqn:Lx.
+          + apply orb_true_iff; left. apply (rL _ _ R); eauto.
+          + apply orb_true_iff; right. eapply (rS _ _ R); eauto.
+            destruct (a_pc x); try discriminate; reflexivity.
+        - destruct (mem_nat a (o_waited o)) eqn:M; auto.
+          apply (rW _ _ R) in M as (y & Ey & Py). rewrite Ex in Ey. injection Ey as <-.
+          rewrite Py in Hx. discriminate.
+        - destruct (a_pc x); try discriminate; reflexivity. }
+      rewrite C. exists o; auto.
+    + assert (HN : has_name n (o_live o) = false).
+      { destruct (has_name n (o_live o)) eqn:H; auto. apply has_name_ex in H as (a & Ha).
+        apply (rL _ _ R) in Ha as (y & Ey & Ny & Ly).
+        assert (lookup n (names s) = Some a).
+        { apply (iB _ I _ y n); auto. destruct (a_pc y); try discriminate; reflexivity. }
+        congruence. }
+      rewrite HN. exists o; auto.
+  - (* LWherePid *)
+    simpl. destruct (mem_pid a (pids s)) eqn:M.
+    + apply (iP _ I) in M as (x & Ex & Rx & Hx). unfold pc_of. rewrite Ex.
+      assert (C : mem_nat a (o_waited o) || (match cls (a_pc x) with SStopped => true | _ => false end) = false).
+      { apply orb_false_iff; split.
+        - destruct (mem_nat a (o_waited o)) eqn:W; auto.
+          apply (rW _ _ R) in W as (y & Ey & Py). rewrite Ex in Ey. injection Ey as <-.
+          rewrite Py in Hx. discriminate.
+        - destruct (a_pc x); try discriminate; reflexivity. }
+      rewrite C. exists o; auto.
+    + assert (HN : mem_nat a (o_pidlive o) = false).
+      { destruct (mem_nat a (o_pidlive o)) eqn:H; auto.
+        apply (rP _ _ R) in H as (y & Ey & Ry & Py).
+        assert (mem_pid a (pids s) = true).
+        { apply (iP _ I). exists y. repeat split; auto. destruct (a_pc y); try discriminate; reflexivity. }
+        congruence. }
+      rewrite HN. exists o; auto.
+Qed.
+
+Lemma Rel_init acts : Rel (init acts) o0.
+Proof.
+  constructor; unfold init, o0; simpl.
+  - intros n a. split; [discriminate|]. intros (x & E & _ & L).
+    rewrite nth_error_map in E. destruct (nth_error acts a); try discriminate. injection E as <-. discriminate.
+  - intros n a x E _ S. rewrite nth_error_map in E. destruct (nth_error acts a); try discriminate.
+    injection E as <-. discriminate.
+  - discriminate.
+  - discriminate.
+  - intros a x E S. rewrite nth_error_map in E. destruct (nth_error acts a); try discriminate.
+    injection E as <-. discriminate.
+Qed.
+
+Lemma check_sim ls s o : Inv s -> Rel s o -> check_from o (history false ls s) = true.
+Proof.
+  revert s o; induction ls as [|l r IH]; intros s o I R; simpl; auto.
+  rewrite check_from_app.
+  destruct (sim_step s o l I R) as (o' & Eo & R'). rewrite Eo.
+  apply IH; auto. apply Inv_step; auto.
+Qed.
+
+Lemma oracle_sound acts ls : check_C10 (history false ls (init acts)) = true.
+Proof. apply check_sim; [apply init_inv|apply Rel_init]. Qed.
